@@ -19,13 +19,13 @@ Theorem c02_exactly_one_response : forall recover rh0 acts ls s,
 Proof. exact t_exactly_one_response. Qed.
 Print Assumptions c02_exactly_one_response.
 
-(* No request hangs (Recover inside, the generated order): while the request is not over, the handler goroutine
-   or the select can move without waiting for the deadline, and no schedule is longer than 2|acts|+3 steps.
-   (Without Recover an unseen nil panic leaves the select waiting for the deadline: c02_panic_nil_refuted.) *)
+(* No request hangs, with or without Recover and whatever a handler panics with: while the request is not over,
+   the handler goroutine or the select can move without waiting for the deadline, and no schedule is longer
+   than 2|acts|+3 steps. *)
 Theorem c02_never_hangs : forall recover rh0 acts ls s,
   run recover ls (init rh0 acts) = Some s ->
   (List.length ls <= 2 * List.length acts + 3)%nat /\
-  (recover = true -> terminal s = false ->
+  (terminal s = false ->
      (exists s', step recover LH s = Some s') \/ (exists a s', step recover (LSel a) s = Some s')) /\
   (terminal s = true -> step recover LH s = None /\ forall a, step recover (LSel a) s = None).
 Proof. exact t_never_hangs. Qed.
@@ -95,14 +95,13 @@ Proof. exact arm_both. Qed.
 Print Assumptions c02_both_ready_either.
 
 (* With Recover inside Timeout a handler panic never becomes a server-level panic; the handler's response is
-   then 500 when it had not committed a status (and the guards notice the panic value: everything but nil, see
-   c02_panic_value_irrelevant / c02_panic_nil_refuted), and the committed status with the bytes written so far
+   then 500 when it had not committed a status (for every panic value, nil included: c02_panic_value_irrelevant,
+   c02_panic_nil_is_a_panic), and the committed status with the bytes written so far
    otherwise.  (`panics a`: an explicit panic or a WriteHeader outside [100,599].) *)
 Theorem c02_panic_is_500_if_uncommitted :
   (forall rh0 acts ls s, run true ls (init rh0 acts) = Some s ->
      st_panicked s = false /\ st_sel s <> Some ArmPanic /\ exists r, handler_response true rh0 acts = Some r) /\
   (forall rh0 pre a post, has_panic pre = false -> panics a = true -> commit_status pre = None ->
-     recover_sees (panic_value_of a) = true ->
      handler_response true rh0 (pre ++ a :: post) =
      Some (mkresp statusInternalServerError (hmerge rh0 (spec_headers pre)) [])) /\
   (forall rh0 pre a post c, has_panic pre = false -> panics a = true -> commit_status pre = Some c ->
@@ -111,47 +110,44 @@ Theorem c02_panic_is_500_if_uncommitted :
 Proof. exact t_panic_is_500_if_uncommitted. Qed.
 Print Assumptions c02_panic_is_500_if_uncommitted.
 
-(* The value a handler panics with does not matter -- unless it is nil.  recover_status / crash_code are the
-   constant functions 500 / Internal on every non-nil value (string, error, runtime.Error of faulty code, an
-   error carrying a gRPC status, http.ErrAbortHandler, custom types); on nil-free scripts the code's response IS
-   the property's (Spec.spec_response, which treats every panic alike); swapping one non-nil value for another
-   changes nothing; the unary chain answers Internal under Crash, with the timeout interceptor in between
-   (every non-deadline outcome of the LTS) and without it (rpc_direct: the Timeout <= 0 configuration). *)
+(* The value a handler panics with does not matter.  recover_status / crash_code are the constant functions 500 /
+   Internal on EVERY value (string, error, runtime.Error of faulty code, an error carrying a gRPC status,
+   http.ErrAbortHandler, custom types, nil): the guards detect a panic by "the protected call did not finish", not
+   by looking at recover()'s result.  Hence the code's response IS the property's (Spec.spec_response, which
+   treats every panic alike) for every script, with or without Recover; swapping one value for another changes
+   nothing; the unary chain answers Internal under Crash, with the timeout interceptor in between (every
+   non-deadline outcome of the LTS) and without it (rpc_direct: the Timeout <= 0 configuration). *)
 Theorem c02_panic_value_irrelevant :
-  (forall v, v <> PVNil -> recover_status v = Some 500 /\ crash_code v = Some codeInternal) /\
-  (forall recover rh0 acts, nil_free acts -> handler_response recover rh0 acts = spec_response recover rh0 acts) /\
-  (forall rh0 pre post v w, v <> PVNil -> w <> PVNil ->
-     handler_response true rh0 (pre ++ PanicA v :: post) = handler_response true rh0 (pre ++ PanicA w :: post)) /\
-  (forall v, v <> PVNil ->
+  (forall v, recover_status v = Some 500 /\ crash_code v = Some codeInternal) /\
+  (forall recover rh0 acts, handler_response recover rh0 acts = spec_response recover rh0 acts) /\
+  (forall recover rh0 pre post v w,
+     handler_response recover rh0 (pre ++ PanicA v :: post) = handler_response recover rh0 (pre ++ PanicA w :: post)) /\
+  (forall v,
      rpc_direct true (HPanics v) = RResult None codeInternal /\
      forall ls s a res, rrun true ls (rinit (HPanics v)) = Some s -> rs_out s = Some (a, res) ->
                         a = ArmFired \/ res = RResult None codeInternal).
 Proof. exact t_panic_value_irrelevant. Qed.
 Print Assumptions c02_panic_value_irrelevant.
 
-(* FINDING (replayed on the Go code by the correspondence, class panic-nil-invisible).  go.mod declares go 1.19,
-   so panic(nil) keeps its pre-1.21 meaning: recover() returns nil, and every guard tests `recover() != nil`.
-   A handler that panics with nil before committing anything is answered 200, not 500; under Crash alone the
-   unary chain returns (nil, OK), not Internal; with the timeout guard/interceptor and no Recover in between the
-   request just waits for its deadline.  Computed witnesses on the faithful model: *)
-Theorem c02_panic_nil_refuted :
-  (spec_response true [] [PanicA PVNil] = Some (mkresp 500 [] []) /\
-   handler_response true [] [PanicA PVNil] = Some (mkresp 200 [] []) /\
-   exists s, run true [LH; LH; LSel ArmDone] (init [] [PanicA PVNil]) = Some s /\ terminal s = true /\
-             rw_log (st_rw s) = [RWriteHeader 200 []; RWrite []]) /\
-  (recover_status PVNil = None /\ crash_code PVNil = None /\ rpc_direct true (HPanics PVNil) = RResult None codeOK) /\
-  (exists s, rrun true [LH] (rinit (HPanics PVNil)) = Some s /\ rs_out s = None /\
-             rstep true LH s = None /\ (forall a, rstep true (LSel a) s = None)) /\
-  (exists s, run false [LH] (init [] [PanicA PVNil]) = Some s /\ terminal s = false /\
-             step false LH s = None /\ (forall a, step false (LSel a) s = None)).
+(* panic(nil) in particular (the former finding D16, repaired by 39fe42d; recover() returns nil for it under the
+   module's go 1.19 semantics): 500 behind Recover, Internal under Crash with and without the timeout interceptor,
+   and without Recover the panic is re-raised at once instead of leaving the request waiting for its deadline. *)
+Theorem c02_panic_nil_is_a_panic :
+  (handler_response true [] [PanicA PVNil] = Some (mkresp 500 [] []) /\
+   exists s, run true [LH; LH; LH; LSel ArmDone] (init [] [PanicA PVNil]) = Some s /\ terminal s = true /\
+             rw_log (st_rw s) = [RWriteHeader 500 []; RWrite []]) /\
+  (rpc_direct true (HPanics PVNil) = RResult None codeInternal /\
+   exists s, rrun true [LH; LSel ArmPanic] (rinit (HPanics PVNil)) = Some s /\
+             rs_out s = Some (ArmPanic, RResult None codeInternal)) /\
+  (exists s, run false [LH; LSel ArmPanic] (init [] [PanicA PVNil]) = Some s /\ terminal s = true /\
+             rw_log (st_rw s) = []).
 Proof.
-  split; [|split; [|split]].
-  - split; [reflexivity|]. split; [reflexivity|]. eexists. vm_compute. repeat split; reflexivity.
-  - repeat split; reflexivity.
-  - exact (rpc_nil_panic_stuck true).
-  - exact no_recover_nil_panic_stuck.
+  split; [|split].
+  - split; [reflexivity|]. eexists. vm_compute. repeat split; reflexivity.
+  - split; [reflexivity|]. eexists. vm_compute. split; reflexivity.
+  - eexists. vm_compute. repeat split; reflexivity.
 Qed.
-Print Assumptions c02_panic_nil_refuted.
+Print Assumptions c02_panic_nil_is_a_panic.
 
 (* MaxConns, for every n, number of requests and schedule of arrivals / returns / panics: at most n requests
    are inside; a request is turned away (503, handler not entered) exactly when n are inside at that instant;
@@ -196,7 +192,7 @@ Print Assumptions c02_rpc_result_is_handler_or_deadline.
 Theorem c02_rpc_exactly_one_result : forall crash h ls s,
   rrun crash ls (rinit h) = Some s ->
   (forall o ls' s', rs_out s = Some o -> rrun crash ls' s = Some s' -> rs_out s' = Some o) /\
-  ((forall v, h = HPanics v -> recover_sees v = true) -> rs_out s = None ->
+  (rs_out s = None ->
      (exists s', rstep crash LH s = Some s') \/ (exists a s', rstep crash (LSel a) s = Some s')).
 Proof. exact t_rpc_exactly_one_result. Qed.
 Print Assumptions c02_rpc_exactly_one_result.
